@@ -642,6 +642,17 @@ func Check(in Input) ([]Violation, Stats) {
 					add("M5-rollback-if-not-exist", "client %d: %s asks to roll back a missing primary although the lock (ttl %d ms) has not outlived its ttl on the resolver's clock (now %d ms after the lock's start)", e.Client, sim.DescribeEntry(e), seen.ttl, oracle.ExtractPhysical(now)-oracle.ExtractPhysical(r.LockTs))
 				}
 			}
+		case *kvrpcpb.CheckSecondaryLocksRequest:
+			// M5b: the recovery of an async-commit transaction (which rolls it back if a secondary is missing) may start
+			// only when the primary's ttl, as the store last reported it to this client, has elapsed on this client's clock
+			if sts := view(e.Client).status[r.StartVersion]; len(sts) > 0 && in.MaxIssuedBefore != nil {
+				last := sts[len(sts)-1]
+				now := in.MaxIssuedBefore(e.Client, e.SentEv)
+				if last.LockTtl > 0 && last.CommitVersion == 0 && now != 0 &&
+					oracle.ExtractPhysical(now) < oracle.ExtractPhysical(r.StartVersion)+int64(last.LockTtl) {
+					add("M5-async-recovery", "client %d: %s starts the recovery of async-commit txn %d although the store reported its primary alive with ttl %d ms and only %d ms have passed since its start on the resolver's clock", e.Client, sim.DescribeEntry(e), r.StartVersion, last.LockTtl, oracle.ExtractPhysical(now)-oracle.ExtractPhysical(r.StartVersion))
+				}
+			}
 		case *kvrpcpb.ResolveLockRequest:
 			st.Resolves++
 			infos := map[uint64]uint64{}
